@@ -11,4 +11,5 @@ OrderItems == {Item("OrderOpen", t) : t \in TIMES} \cup {Item("OrderFullyFilled"
 ItemLists  == {<<>>} \cup {<<i>> : i \in BalItems \cup OrderItems} \cup {<<o, b>> : o \in OrderItems, b \in BalItems}
 \* (three-handle configuration: the aliasing structure, a small alphabet)
 ItemListsSmall == {<<>>, <<Item("OrderFullyFilled", 0), Item("Balance", 1)>>}
+EventsSmall == {Ev("MarketItem", t) : t \in TIMES} \cup {Ev("CancelErr", 0)} \cup {SnapEv(l) : l \in ItemListsSmall}
 =============================================================================
